@@ -22,7 +22,7 @@ PLAN = {
 
 MIRIFLAGS = "-Zmiri-disable-isolation -Zmiri-permissive-provenance"
 # histories per sanitizer-tier process
-SAN_N = {("miri", "quick"): 12, ("miri", "thorough"): 40, ("tsan", "quick"): 200, ("tsan", "thorough"): 400}
+SAN_N = {("C11", "miri", "quick"): 5, ("C11", "miri", "thorough"): 26, ("miri", "quick"): 12, ("miri", "thorough"): 40, ("tsan", "quick"): 200, ("tsan", "thorough"): 400}
 TIER = ["quick"]
 
 
@@ -127,7 +127,7 @@ def run_leg(root, env, pid, tool, k, seed, binary):
     e["VERIF_LEG"] = name
     e["VERIF_ROOT"] = root
     e["VERIF_JOBS"] = "2"
-    e["VERIF_SAN_N"] = str(SAN_N.get((tool, TIER[0]), 24))
+    e["VERIF_SAN_N"] = str(SAN_N.get((pid, tool, TIER[0]), SAN_N.get((tool, TIER[0]), 24)))
     leg_seed = str(int(seed) * 1000 + k)
     t0 = time.time()
     if tool == "miri":
